@@ -284,12 +284,24 @@ func main() {
 	core.ParseFlags()
 	node.Quiet()
 	node.DropEngineGoroutines() // see mc/node/tasks.go
+	if os.Getenv("C05_TERM_PROBE") != "" {
+		tProbe()
+		return
+	}
 	maxLen := 2
 	if core.Thorough() {
 		maxLen = 3
 	}
 	cases := enumerate(maxLen)
 	if core.Opt.Replay != "" {
+		var tc termCase
+		if err := core.LoadReplay(core.Opt.Replay, &tc); err == nil && len(tc.Hist) > 0 {
+			// a history of phase T (term boundaries)
+			if replayTerm(tc) > 0 {
+				os.Exit(1)
+			}
+			return
+		}
 		var c caseT
 		if err := core.LoadReplay(core.Opt.Replay, &c); err != nil {
 			fmt.Println(err)
@@ -311,7 +323,7 @@ func main() {
 	if i, n, ok := core.IsWorker(); ok {
 		r := core.NewResult(prop, "exploration")
 		w = chainkit.NewWorld(core.ScratchDir("c05w"))
-		for k := i; k < len(cases); k += n {
+		for k := i; k < len(cases) && os.Getenv("C05_ONLY_TERM") == ""; k += n {
 			core.Journal(cases[k].String())
 			runCase(cases[k], r)
 			r.Add("evaluations", 1)
@@ -324,12 +336,18 @@ func main() {
 			}
 		}
 		w.F.Destroy()
+		// phase T: term boundaries (term.go). It changes process-global parameters (term length),
+		// so it runs after the first phase's world is gone.
+		if r.Exhaustive && os.Getenv("C05_SKIP_TERM") == "" {
+			runTermShard(i, n, r)
+		}
 		core.WorkerDone(r)
 	}
 	r := core.NewResult(prop, "exploration")
 	r.Rule = fmt.Sprintf("all ordered lists without repeats of length 1..%d over the %d-transaction menu (all 11 tx types incl. value-forwarding / reverting / self-destructing contracts, gas payer, boxes with sub-transaction gas prices different from the box's, deposits) mined on the prefix state, and again with every block gas limit at which the pool runs dry at one of the (sub-)transactions (what a full block drops must cost nothing); conservation monitor I1-I4 on every block; a distinct outcome is (packaged count, total fees, burn)", maxLen, len(chainkit.Menu))
 	r.Assume = []string{"single deputy; ordinary heights (no reward block, no deposit refund at a term boundary) — see DESIGN.md for what is not covered", "the only burner in the menu is the contract that self-destructs to itself"}
 	r.Extra["cases"] = len(cases)
+	r.Extra["term_histories_planned"] = len(enumerateTerm())
 	core.RunShards(r, core.Opt.Workers, nil, core.Opt.Budget+3*time.Minute, nil)
 	core.Finish(r)
 }
